@@ -13,6 +13,7 @@ func init() {
 	vrt.Register("C18_tag_split_merge", TagSplitMerge)
 	vrt.Register("C18_comment_tags", CommentTags)
 	vrt.Register("C18_comment_tags_quote_hash", CommentTagsQuoteHash)
+	vrt.Register("C18_comments_in_blocks", CommentsInBlocks)
 }
 
 // a program: statements (token lists) of code tags, then a tail that shows the state
@@ -209,4 +210,36 @@ func commentTags(alphabet string) {
 		s += "<%#" + body + "%>"
 	}
 	same(p, s+p.tail)
+}
+
+// a comment tag (or a line comment) between the statements of a block whose body
+// is cut across tags: function bodies (the result is used as a value), if and for bodies
+func CommentsInBlocks() {
+	body := vrt.BytesIn(vrt.IntRange(0, 1), "c \n{}(=1")
+	cm := "<%#" + body + "%>"
+	if vrt.Bool() {
+		cm = "<% # " + vrt.BytesIn(vrt.IntRange(0, 1), "c x") + "\n %>"
+	}
+	type tc struct{ pre, post string }
+	cases := []tc{
+		{"<% let f = fn(x) { %>", "<% return x * 2 } %>[<%= f(2) + 1 %>]"},
+		{"<% let f = fn(x) { %>", "<% return x * 2 } %>[<%= f(2) == 4 %>]"},
+		{"<% let f = fn(x) { let y = x %>", "<% return y } %>[<%= xs[f(1)] %>]"},
+		{"<% let f = fn(x) { if (x == 1) { %>", "<% return 7 } return 8 } %>[<%= f(1) - 1 %>]"},
+		{"[<%= if (a == 1) { %>", "<%= 5 %><% } %>]"},
+		{"[<%= for (v) in xs { %>", "<%= v %>,<% } %>]"},
+		{"<% let g = fn() { %>", "<% } %>[<%= g() %>]"},
+	}
+	c := cases[vrt.Choice(len(cases))]
+	canon := c.pre + c.post
+	relaid := c.pre + cm + c.post
+	vrt.Note("canonical", canon)
+	vrt.Note("input", relaid)
+	want, werr := plush.Render(canon, newCtx())
+	vrt.Assert(werr == nil, "the canonical layout renders (harness sanity)")
+	got, err := plush.Render(relaid, newCtx())
+	vrt.Note("got", got)
+	vrt.Assert(err == nil, "a template with a comment inside a block still renders")
+	vrt.Assert(got == want, "a comment between the statements of a block does not change what the template renders to")
+	vrt.Cover("done")
 }
